@@ -122,12 +122,15 @@ func (nw *oplConfigWatcher) parseFiles() {
 		namespaces = make([]*namespace.Namespace, 0)
 		errs       []error
 	)
-	for _, reader := range nw.files.byPath {
+	for path, reader := range nw.files.byPath {
 		content, err := io.ReadAll(reader)
 		if err != nil {
 			errs = append(errs, err)
 			continue
 		}
+		// The reader is consumed now. Every event re-parses all files, so keep
+		// the content readable for the next run.
+		nw.files.byPath[path] = bytes.NewReader(content)
 		nn, ee := schema.Parse(string(content))
 		for _, e := range ee {
 			errs = append(errs, e)
